@@ -11,4 +11,5 @@ PROP = {'level': 'proof',
                'sequentially here (the thorough tier fires simultaneous duplicates under -race).',
  'trusted': ['hooks in /repo', 'deterministic lab'],
  'assumptions': [],
- 'shards': 16}
+ 'shards': 16,
+ 'facts': ['requestClass', 'dedupAtomic']}
